@@ -2,6 +2,22 @@
   Proofs/BPolyDiv.lean — the multivariate division algorithm of /repo/bivariate/arithmetic.go
   (`quoRemWithIgnore`, `QuoRem`, `Rem`; model `BPoly.quoRemLoop`, `quoRem`, `rem`) returns a standard
   representation (property C10).
+
+  Contents (namespace `Algobra.BPoly`):
+  * `firstDiv_some`, `firstDiv_none`   — what the divisor search returns;
+  * `dot L qs gs = Σ toMv qs_i * toMv gs_i` (`List.zipWith … |>.sum`), `dot_set`;
+  * `lcQuot_valid`, `lcQuot_embed`     — the quotient of the leading coefficients;
+  * `ShiftNO o g dd`, `RunOK F o ignore gs fuel p` — the no-wrap-around guard of a run (decidable,
+    `runOKb_iff`); `QOK o gs m qs` — the degree invariant of the quotients;
+  * `quoRemLoop_spec`                  — MAIN INVARIANT of the loop (identity, canonicity, remainder
+    condition, degree bounds), for any `ignore` and any start state;
+  * `quoRemLoop_init_spec`, `quoRem_ok`, `quoRem_error`, `quoRem_zero_divisor`, `quoRem_spec`,
+    `rem_eq`, `rem_ok`               — the loop from its initial state, `QuoRem`, `Rem`;
+  * `coeff_mul_ne_zero`, `mul_bound`, `mulNoReduce_bound` — exponents / leading exponent of `q_i g_i`;
+  * `Graded o`, `RunOK_of_graded`      — for WDegLex/WDegRevLex with positive weights the guard
+    follows from `NoOverflow` of the inputs;
+  * `DegLT_wf` (Dickson), `nextP_spec` (the leading exponent strictly decreases),
+    `quoRemLoop_terminates`, `quoRem_terminates`, `quoRemLoop_fuel_mono`, `RunOK_of_complete`.
 -/
 import Mathlib.Order.WellFounded
 import Mathlib.Order.WellQuasiOrder
@@ -608,7 +624,6 @@ theorem cmp_le_of_le {o : Order} (hadm : Admissible o) {a b : Deg} (hb : NoOverf
     (h1 : a.1 ≤ b.1) (h2 : a.2 ≤ b.2) : o.cmp a b ≤ 0 := by
   have hc : NoOverflow o (b.1 - a.1, b.2 - a.2) :=
     NoOverflow_mono hb (Nat.sub_le _ _) (Nat.sub_le _ _)
-  have e1 : ((0, 0) : Deg) = ((0, 0) : Deg) := rfl
   have ea : (((0, 0) : Deg).1 + a.1, ((0, 0) : Deg).2 + a.2) = a :=
     Prod.ext (Nat.zero_add _) (Nat.zero_add _)
   have eb : ((b.1 - a.1, b.2 - a.2).1 + a.1, (b.1 - a.1, b.2 - a.2).2 + a.2) = b :=
